@@ -74,16 +74,41 @@ func ruleWrap(e *Env, ruleName string, pkgs ...string) {
 				continue
 			}
 			hasUnwrap := false
+			unwrapBad := ""
 			for _, recv := range []types.Type{named, types.NewPointer(named)} {
-				ms := types.NewMethodSet(recv)
+				ms := e.P.SSA.MethodSets.MethodSet(recv)
 				if sel := ms.Lookup(sp.Pkg, "Unwrap"); sel != nil {
 					if sig, ok := sel.Type().(*types.Signature); ok && sig.Params().Len() == 0 && sig.Results().Len() == 1 && types.Identical(sig.Results().At(0).Type(), errT) {
 						hasUnwrap = true
+						// … and what it hands back is the stored error itself: every return is a load of an error-typed
+						// field of the receiver (not nil, not that error unwrapped once more)
+						if fn := e.P.SSA.MethodValue(sel); fn != nil && fn.Synthetic == "" && len(fn.Blocks) > 0 {
+							for _, r := range flow.Returns(flow.Origin(fn)) {
+								okRet := false
+								if len(r.Results) == 1 {
+									switch v := r.Results[0].(type) {
+									case *ssa.UnOp:
+										if fa, isFA := v.X.(*ssa.FieldAddr); isFA && v.Op == token.MUL && flow.RootParam(fa.X) == flow.Origin(fn).Params[0] && types.Identical(v.Type(), errT) {
+											okRet = true
+										}
+									case *ssa.Field:
+										if flow.RootParam(v.X) == flow.Origin(fn).Params[0] && types.Identical(v.Type(), errT) {
+											okRet = true
+										}
+									}
+								}
+								if !okRet {
+									unwrapBad = "Unwrap of " + n + " returns something other than the error stored in the receiver (" + e.posOf(r) + "): errors.Is does not reach a documented sentinel wrapped in it"
+								}
+							}
+						}
 					}
 				}
 			}
 			site := pkg + "." + n
-			if hasUnwrap {
+			if hasUnwrap && unwrapBad != "" {
+				e.S.Bad(ruleName, site, "Unwrap", unwrapBad, "", "")
+			} else if hasUnwrap {
 				e.S.Ok(ruleName, site, "Unwrap", "error type carrying an error exposes it through Unwrap() error", "")
 			} else {
 				e.S.Bad(ruleName, site, "Unwrap", "error type "+n+" stores another error but has no Unwrap() error method: errors.Is cannot find a documented sentinel wrapped in it", "", "")
